@@ -437,6 +437,20 @@ fn pick_tier(
     max_delay
 }
 
+#[cfg(feature = "verif-hooks")]
+impl WeakLinkFilter {
+    /// Read-only projection of the per-link hysteresis state
+    /// `(prev_weak, delay_streak, share_streak, probation_ticks)`.
+    pub fn verif_view(&self, conn_id: u64) -> (bool, u32, u32, u32) {
+        (
+            self.prev_weak.get(&conn_id).copied().unwrap_or(false),
+            self.delay_weak_streak.get(&conn_id).copied().unwrap_or(0),
+            self.weak_streak.get(&conn_id).copied().unwrap_or(0),
+            self.probation_ticks.get(&conn_id).copied().unwrap_or(0),
+        )
+    }
+}
+
 #[cfg(test)]
 mod tests {
     use super::*;
